@@ -1,9 +1,10 @@
 #!/bin/sh
 # usage: build_wl.sh <workload> [repo] [outdir] [extra flags] — compile one workload against a repo tree
 set -e
-WL=$1; REPO=${2:-/repo}; OUT=${3:-/verif/build/wl}; EXTRA=$4
+V=$(cd "$(dirname "$0")/.." && pwd)
+WL=$1; REPO=${2:-/repo}; OUT=${3:-$V/build/wl}; EXTRA=$4
 mkdir -p $OUT
-make -s -C /verif setup
+make -s -C $V setup
 clang++ -std=c++17 -O1 -g -fno-omit-frame-pointer -fPIE -fsanitize=thread -mllvm -tsan-instrument-func-entry-exit=0 \
-  -DGMLC_CONCURRENCY_VERIF -I$REPO -I/verif/sim -Wall -Wno-unused-function $EXTRA -c /verif/workloads/$WL.cpp -o $OUT/$WL.o
-clang++ -pie -rdynamic $OUT/$WL.o /verif/build/rt/*.o -o $OUT/$WL -ldl -lpthread
+  -DGMLC_CONCURRENCY_VERIF -I$REPO -I$V/sim -Wall -Wno-unused-function $EXTRA -c $V/workloads/$WL.cpp -o $OUT/$WL.o
+clang++ -pie -rdynamic $OUT/$WL.o $V/build/rt/*.o -o $OUT/$WL -ldl -lpthread
